@@ -12,7 +12,7 @@ def main(a):
     i = 2
     while i < len(a):
         if a[i] == "--name": name = a[i+1]
-        elif a[i] == "--preset": k, v = a[i+1].split("="); presets[k] = ("obj", v)
+        elif a[i] == "--preset": k, v = a[i+1].split("="); presets[k] = ("variant", v)
         elif a[i] == "--alias": k, v = a[i+1].split("="); alias[k] = v
         elif a[i] == "--arg": k, v = a[i+1].split("="); args[int(k)] = ("bool", v == "true") if v in ("true", "false") else ("obj", v)
         elif a[i] == "--opaque": opaque.append(a[i+1])
